@@ -20,6 +20,7 @@ LEVEL = 'exploration'
 CASE_TIMEOUT = 400
 BATCH_SIZE = {'quick': 1, 'thorough': 1}
 REQUIRED_COUNTERS = ['iterations_checked', 'get_batch_checked',
+                     'files_with_unsorted_minor_indices',
                      'csc_conversions', 'csc_multi_pass_conversions',
                      'encoding_triples_mapping', 'encoding_triples_stats']
 RULE = ('case block = matrices x {dense, CSR, CSC} x {X, layer} x dtype x '
@@ -162,9 +163,15 @@ def check_iterator(ctx, M, enc, layer, dtype, work, rng, chunk_sizes,
     path = work / 'm.h5ad'
     if path.exists():
         path.unlink()
+    # sparse encodings: every other file stores the minor indices of each
+    # major slice in shuffled order (valid, non-canonical CSR / CSC)
+    unsorted = None
+    if enc in ('csr', 'csc') and rng.random() < 0.5:
+        unsorted = int(rng.integers(1, 2 ** 31))
+        ctx.bump('files_with_unsorted_minor_indices')
     mapworld.write_h5ad(path, M, [f'c{i}' for i in range(n_rows)],
                         [f'g{j}' for j in range(n_cols)], encoding=enc,
-                        layer=layer)
+                        layer=layer, unsorted_indices=unsorted)
     layer_key = 'X' if layer is None else f'layers/{layer}'
     if layout is not None:
         rechunk(path, layer_key, layout, rng)
@@ -172,9 +179,11 @@ def check_iterator(ctx, M, enc, layer, dtype, work, rng, chunk_sizes,
     scratch.mkdir(exist_ok=True)
     nnz = int((M != 0).sum())
     ctx.features.add((M.shape, min(nnz, 200), enc, dtype,
-                      layout is not None, layer is not None))
+                      layout is not None, layer is not None,
+                      unsorted is not None))
     for chunk in chunk_sizes:
-        what = describe(M, enc, layer, dtype, chunk, max_gb, layout)
+        what = describe(M, enc, layer, dtype, chunk, max_gb, layout) + \
+            (' minor indices unsorted' if unsorted is not None else '')
         try:
             it = AnnDataRowIterator(
                 h5ad_path=path, row_chunk_size=chunk,
